@@ -425,11 +425,15 @@ func (s *Stream) executeFlow(
 	// TODO: Handle the case where the root is not set.
 	// we need to create the globalStream nodes and set them as default root.
 	// If needed we could replace them with the needed root.
+	// A response direction may have no root when it only continues an early
+	// response: the walk then starts from the short-circuit node's connection.
+	var node internaltypes.FlowGraphNodeI
 	start, _ := flowDirection.GetRoot()
-	if utils.IsInterfaceNil(start) {
+	if !utils.IsInterfaceNil(start) {
+		node = start.GetNode()
+	} else if utils.IsInterfaceNil(startFromNode) {
 		return shortCircuitNode, nil
 	}
-	node := start.GetNode()
 
 	if !utils.IsInterfaceNil(startFromNode) {
 		// If we have a short circuit, we need to start from the node that caused it
@@ -444,6 +448,9 @@ func (s *Stream) executeFlow(
 		} else {
 			log.Debug().Msgf("Short circuit node %v has no target node", startFromNode.GetProcessorKey())
 		}
+	}
+	if utils.IsInterfaceNil(node) {
+		return shortCircuitNode, nil
 	}
 
 	var err error
